@@ -120,7 +120,7 @@ NA_REASON = "not claimed"
 ADDED = {
  "C02": " Also: payloads whose Adler-32 halves sit on their boundary values in the three zlib modes; streams of short-code blocks larger than the 64 KiB staging buffer with input/output ending at every byte near the boundary; the decoder told the window size (hist_bits); and round trips in the documented build variants IGZIP_HIST_SIZE=8192 and LONGER_HUFFTABLE (library and harness rebuilt with the define).",
  "C01": " Later input classes: constant runs of every length, Adler-32 boundary inputs, mixes of long far-match symbols, alphabets with gaps of exact sizes (zero runs of 3, 10-12, 137-140, 148-150 code lengths), and near-miss far matches (KEY x CONT ... KEY CONT at the first and last distance of every distance code) under the AVX-512, AVX2 and base levels; a long run beginning at every fill level of the smallest token buffers; single matches at every length-code edge; one far match per distance code; hist_bits 1-8 with 1-bit literals in groups; whole stored sub-blocks with the output at the bound.",
- "C10": " Later: inputs that begin with a long 0x00 / 0xFF run (the one-shot path's dedicated routine) with avail_out swept from 0 past the size needed.",
+ "C10": " Later: inputs that begin with a long 0x00 / 0xFF run (the one-shot path's dedicated routine; up to 100000 bytes, 300000 in the thorough tier) with avail_out swept from 0 past the size needed.",
  "C12": " Tables are also built into slots at odd addresses. The clause 'any table-driven product of c with a byte equals the field product' is also checked literally: every gf_vect_mul variant (base, dispatched, sse, avx) over all 256 byte values at two lane positions for every constant.",
  "C11": " Later: verifier parents made of 1- and 2-byte stored blocks; producer with a flush left pending and completed together with more input (coarse sweep plus the probe-located staged-marker family of C14) and under the other CPU levels on worst-case Adler inputs.",
  "C19": " The same headers are also fed through isal_inflate (its own reader path) at every split point, with and without header CRC, and zlib headers announcing a dictionary; judged by TraceInflate. Every value of each fixed header byte in turn (magic, method, flags; zlib CMF).",
